@@ -182,6 +182,9 @@ class Impl:
         elif o == 'set_origin':
             self.objs[s['obj']].origin_reference = specgen.to_py(s['raw'], self.objs)
             return None
+        elif o == 'set_header':
+            setattr(lf.file_header, 'header_id' if s['field'] == 'id' else 'sequence_number', specgen.to_py(s['raw'], self.objs))
+            return None
         elif o == 'nofmt':
             p = s['payload']
             data = bytes.fromhex(p['hex']) if p['kind'] == 'bytes' else bytearray.fromhex(p['hex']) if p['kind'] == 'bytearray' else p.get('text', 5)
@@ -258,6 +261,8 @@ def program_trees(program, outs):
             trees.append([5, idxmap.get(s['obj'], 10**6), A[tkey]['attr_order'].index(s['attr']), s['part'] == 'units', raw_tree(s['raw'], idxmap)])
         elif o == 'set_origin':
             trees.append([11, idxmap.get(s['obj'], 10**6), raw_tree(s['raw'], idxmap)])
+        elif o == 'set_header':
+            trees.append([12, s['lf'], s['field'] == 'id', raw_tree(s['raw'], idxmap)])
         elif o == 'nofmt':
             p = s['payload']
             pt = [0, bytes.fromhex(p['hex'])] if p['kind'] in ('bytes', 'bytearray') else ([1, text(p['text'])] if 'text' in p else [2])
